@@ -3,7 +3,7 @@ from propdefs.common import *
 PROP = {
     "bin": "c11",
     "coq_targets": ["theories/Graph/C11Check"],
-    "n": {"quick": 2300, "thorough": 16000, "smoke": 2100},
+    "n": {"quick": 2300, "thorough": 8000, "smoke": 2100},
     "theorems": ["graph_inv", "graph_inv_step", "remove_vertex_effect", "reachable_correct", "unreachable_correct", "idom_check_sound",
                  "dominators_check_sound", "df_check_sound", "semi_nca_correct_le_3", "algorithms_correct_le_3",
                  "dom_of_idom", "dom_of_root", "df_of_idom", "df_of_root", "dom_antisym", "topo_check_sound", "trans_preds_check_sound", "acyclic_check_sound",
@@ -15,14 +15,14 @@ PROP = {
             "distinct by canonical input text",
     "trusted_base": [KERNEL, HARNESS_TB, "std BTreeMap/BTreeSet/FxHashMap taken to be finite maps/sets (ascending iteration for BTree*)"],
     "assumptions": ["vertex ids range over usize (modelled as N); graphs are built through the public insert/remove API"],
-    "partial": ["unbounded correctness of Semi-NCA itself is not proved: covered per output by the verified validator idom_check [V] and on all digraphs with <= 3 vertices [F]",
+    "partial": ["unbounded correctness of Semi-NCA itself is not proved: covered per output by the verified validator idom_check [V] and on all digraphs with <= 3 vertices [F] (4 vertices: Graph/SemiNca4.v, 42 min build, outside the Props cone)",
                 "pre/post order, DFS tree, transitive predecessors, compute_acyclic, is_acyclic, is_reducible, natural loops, loop nesting and topological ordering have no unbounded theorem about the model functions: "
-                "they are covered by the tie plus oracle on every case, by algorithms_correct_le_3 [F], and (dominators, frontiers, dominator tree, loops, reducibility, acyclicity, transitive predecessors, topological order) by verified validators [V]",
+                "they are covered by the tie plus oracle on every case, by algorithms_correct_le_3 [F], and (dominators, frontiers, dominator tree, loops, loop nesting, reducibility, acyclicity, transitive predecessors, topological order) by verified validators [V]",
                 "pre-order / post-order / DFS-tree / compute_acyclic oracles check necessary conditions of the definitions (any DFS child order accepted); the exact order is fixed only by the tie",
                 "native recursion depth (stack overflow on very long paths) is not modelled"],
     "level_text": "Unbounded Coq theorems: the four views of Graph<V,E> stay mutually consistent under every sequence of insert/remove operations (failing ones included, never a panic); "
-                  "reachable/unreachable/remove_unreachable_vertices are exact; the derivations from the idom map (dominator sets, dominance frontiers incl. the start node, back edges) are correct; "
-                  "verified validators (idom_check and nine more) whose acceptance implies the textbook relational definition, evaluated in the kernel on every result the Rust code returns; "
+                  "reachable/unreachable/remove_unreachable_vertices are exact, compute_pre_order enumerates exactly the reachable vertices; the derivations from the idom map (dominator sets, dominance frontiers incl. the start node, back edges) are correct; "
+                  "verified validators (idom_check and ten more) whose acceptance implies the textbook relational definition, evaluated in the kernel on every result the Rust code returns; "
                   "finite-domain theorems (all digraphs on <= 3 vertices x all roots) for Semi-NCA and for all 17 routines of the model; plus the in-kernel differential tie model = code on generated graphs and edit histories.",
     "level_note": "Trusted: Coq kernel + vm_compute; the harness/pretty-printer; std BTreeMap/FxHashMap as finite maps; the model is hand-written and tied to the code differentially. "
                   "Semi-NCA correctness for all graphs is [V] per output + [F] small scope, not [U].",
